@@ -1011,6 +1011,15 @@ def gen_datetime(rng, tier):
             out.append(dict(base, draws={"mode": "raw", "rows": 4, "raw": [rng.randint(0, DEN - 1) for _ in range(4)]}))
         if rng.random() < 0.4:
             out.append(dict(base, draws=draws(rng, "free", rows=40)))
+    # every presentation zone x offset-carrying bounds (always present): naive result vs. aware bounds
+    for off_s, off_e in ((300, 300), (-480, -480), (330, 0), (0, -720), (None, 840)):
+        for tz in ("false", None, [rng.randint(-11, 12), rng.choice([0, 30])]):
+            st = ab(*gen_day(rng), H=rng.randint(0, 23), M=rng.randint(0, 59), S=rng.randint(0, 59), off=off_s, style=rng.choice(styles))
+            en = dict(add_us(st, rng.choice([10 * 60, 3, 86400, rng.randint(2, 10 ** 6)]) * US + ((off_e or 0) - (off_s or 0)) * 60 * US),
+                      off=off_e, style=rng.choice(styles))
+            base = {"kind": "datetime", "start": st, "end": en, "tz": tz}
+            out.append(dict(base, draws=draws(rng, "ends")))
+            out.append(dict(base, draws=draws(rng, "free", rows=10)))
     for sp, ep in ([["d", -30]], [["y", 1]]), ([["y", -1], ["d", 2]], [["w", 2], ["h", 3]]), ([["M", 1]], [["M", 1]]), ([["y", 1]], [["d", -30]]):
         out.append({"kind": "datetime", "start": {"t": "rel", "parts": sp}, "end": {"t": "rel", "parts": ep}, "tz": None, "draws": draws(rng, "ends")})
     out.append({"kind": "datetime", "start": {"t": "bad", "text": "2040-13-13T00:00:00"}, "end": ab(2041, 1, 1), "tz": None, "draws": draws(rng, "ends")})
